@@ -27,6 +27,12 @@ void rt_reg(const void* base, size_t bytes, int loc_base, int elem) {
   if (nregs >= MAX_RANGES) { fprintf(stderr, "rt: too many ranges\n"); _exit(4); }
   regs[nregs++] = (range_t){(uintptr_t)base, (uintptr_t)base + bytes, loc_base, elem};
 }
+/* the rest of an object whose interesting fields were registered before this call: only in search mode
+ * (RT_CATCHALL=1; judged by the monitors alone), so that a field ADDED by a changed source tree is a scheduling point
+ * too.  Never active in the lock-step runs, whose traces must not depend on it. */
+void rt_reg_rest(const void* base, size_t bytes, int loc_base) {
+  if (getenv("RT_CATCHALL")) rt_reg(base, bytes, loc_base, 1);
+}
 void rt_name(const void* base, size_t bytes, long id_base, int elem) {
   if (nnames >= MAX_RANGES) { fprintf(stderr, "rt: too many names\n"); _exit(4); }
   names[nnames++] = (range_t){(uintptr_t)base, (uintptr_t)base + bytes, id_base, elem};
